@@ -448,3 +448,36 @@ def digit_chars(d, n):
 
 def chars_at(s, a, tok, n, b):
     return not (s == a + tok + b and len(tok) == n) or all(s[len(a) + i] == tok[i] for i in range(n))
+
+
+def split_first(s):
+    return s == s[0:1] + s[1:] and len(s[0:1]) <= 1
+
+
+def last_of(pre, a):
+    return not a or (pre + a)[-1] == a[-1]
+
+
+def strip_noop(c):
+    return not (len(c) > 0 and not c[0].isspace() and not c[-1].isspace()) or c.strip() == c
+
+
+def find_in(ch, *pieces):
+    off, expected = 0, -1
+    for p in pieces:
+        i = p.find(ch)
+        if i >= 0:
+            expected = off + i
+            break
+        off += len(p)
+    return "".join(pieces).find(ch) == expected
+
+
+def rfind_in(ch, *pieces):
+    off, expected = 0, -1
+    for p in pieces:
+        i = p.rfind(ch)
+        if i >= 0:
+            expected = off + i
+        off += len(p)
+    return "".join(pieces).rfind(ch) == expected
